@@ -166,6 +166,17 @@ func BuildHistories(universe []string, ops []*OpRec, lo LinOpts) map[string][]po
 					add(op, a, linIn{Kind: lAcquire, Handle: op.Step.Handle}, oUnknown)
 				}
 			}
+			if op.Open() {
+				// A write whose reply was lost (or that preceded a crash) may have committed an
+				// allocation that the call never reported; the call then carries on and can allocate
+				// the SAME address again after somebody released it.  So an open AutoAssign may have
+				// acquired each address once more per fault that hit it, besides what it returned.
+				for k := 0; k < op.HardFaults; k++ {
+					for a := range got {
+						add(op, a, linIn{Kind: lAcquire, Handle: op.Step.Handle}, oUnknown)
+					}
+				}
+			}
 		case KAssignIP:
 			a := canonIP(op.Step.IP)
 			switch {
